@@ -144,7 +144,7 @@ func init() {
 	register(rulePanicExec)
 	addProp(&PropSpec{
 		ID:          "C05",
-		Rules:       []string{"R-PANIC-EXEC", "R-EXH", "R-ERRSITES", "R-ERRCLASS"},
+		Rules:       []string{"R-PANIC-EXEC", "R-EXH", "R-ERRSITES", "R-ERRCLASS", "R-INPUT-RO"},
 		Explanation: "Totality and error classification of execution as shapes of the code. Every explicit panic site and every ErrInvalid construction reachable from the entry points is shown infeasible by an abstract interpretation whose universes are derived from the repository: node shapes per operand slot from the goyacc grammar's actions, enum constants, the 13 documented item types, the 5 datetime types; call sites are expanded three levels up and callbacks stay paired with their call site. Every error that can reach an entry point wraps ErrExecution or is NULL (Exists/Match only).",
 		Decided: []string{"R-PANIC-EXEC: no feasible explicit panic / Must* / unchecked assertion below the entry points",
 			"R-EXH: no feasible ErrInvalid construction for parser-produced paths and documented item types",
